@@ -8,6 +8,7 @@ package py
 type Enumerate struct {
 	Iterable Object
 	Start    Int
+	it       *EnumerateIterator // the one iteration of this object
 }
 
 // A python Enumerate iterator
@@ -57,12 +58,24 @@ func EnumerateNew(metatype *Type, args Tuple, kwargs StringDict) (Object, error)
 	return &Enumerate{Iterable: iter, Start: startIndex}, nil
 }
 
-// Enumerate iterator
+// An enumerate object is its own iterator: it keeps its count however
+// often iter() is applied to it
 func (e *Enumerate) M__iter__() (Object, error) {
-	return &EnumerateIterator{
-		Enumerate: *e,
-		Index:     e.Start,
-	}, nil
+	if e.it == nil {
+		e.it = &EnumerateIterator{
+			Enumerate: *e,
+			Index:     e.Start,
+		}
+	}
+	return e, nil
+}
+
+// The next (index, item) pair
+func (e *Enumerate) M__next__() (Object, error) {
+	if e.it == nil {
+		_, _ = e.M__iter__()
+	}
+	return e.it.M__next__()
 }
 
 // EnumerateIterator iterator
@@ -84,5 +97,5 @@ func (ei *EnumerateIterator) M__next__() (Object, error) {
 }
 
 // Check interface is satisfied
-var _ I__iter__ = (*Enumerate)(nil)
+var _ I_iterator = (*Enumerate)(nil)
 var _ I_iterator = (*EnumerateIterator)(nil)
